@@ -55,6 +55,8 @@ func sortStr(sort int) string {
 		return "Int"
 	case sort == SReal:
 		return "Real"
+	case sort == SFP:
+		return "(_ FloatingPoint 11 53)"
 	default:
 		return fmt.Sprintf("(_ BitVec %d)", sort)
 	}
